@@ -39,7 +39,7 @@ def program(n, reqs, raw, opts, tail_datagram=True):
     for k in ('id', 'ttl', 'proto'):
         if k in opts: o.append('%s: %d' % (k, opts[k]))
     for k in ('df', 'evil'):
-        if opts.get(k): o.append('%s: true' % k)
+        if k in opts: o.append('%s: %s' % (k, 'true' if opts[k] else 'false'))
     lines.append('let fr = ipv4::frag(10.1.2.3, 10.200.100.50, %s%s);' % (''.join(x + ', ' for x in o), pe))
     rw = ', raw: true' if raw else ''
     for (kind, off, ln) in reqs:
@@ -143,11 +143,11 @@ def campaign(c):
         for j in range(len(reqs) - 1, 0, -1):
             k = r.below(j + 1); reqs[j], reqs[k] = reqs[k], reqs[j]
         opts = {}
-        if r.chance(1, 2): opts['id'] = r.below(65536)
-        if r.chance(1, 3): opts['df'] = True
-        if r.chance(1, 4): opts['evil'] = True
-        if r.chance(1, 3): opts['ttl'] = r.below(256)
-        if r.chance(1, 3): opts['proto'] = r.choice([1, 6, 17, 47, r.below(256)])
+        if r.chance(1, 2): opts['id'] = r.choice([0, 1, 65535, r.below(65536), r.below(65536)])
+        if r.chance(1, 3): opts['df'] = r.chance(3, 4)          # also an explicit `df: false`
+        if r.chance(1, 4): opts['evil'] = r.chance(3, 4)
+        if r.chance(1, 2): opts['ttl'] = r.choice([0, 1, 64, 255, r.below(256)])       # zero is a value, not "unset"
+        if r.chance(1, 2): opts['proto'] = r.choice([0, 1, 6, 17, 47, 255, r.below(256)])
         check(c, n, reqs[:40], r.chance(1, 3), opts, 'rand')
     c.assumptions += ['fragments are decoded from the real pcap by Spec.decodeFrag; IP header checksums are C02\'s business']
 
